@@ -38,8 +38,9 @@ class BuiltinMixin:
                             self.assign_place(stmt_.targets[0], self.ev(stmt_.value, tmp, sfr), tmp, sfr)
                         elif isinstance(stmt_, ast.Return):
                             body = self.evb(stmt_.value, tmp, sfr)
-                    for extra in tmp.facts:
-                        self.add_global_fact(z3.ForAll(bvs, extra))
+                    if tmp.facts:
+                        # facts mentioning fresh constants cannot be generalised over the predicate's parameters: refuse
+                        raise Untranslatable(f"recursive spec predicate {name}: body is not fact-free ({str(tmp.facts[0])[:80]})")
                     self.add_global_fact(z3.ForAll(bvs, f(*bvs) == body, patterns=[f(*bvs)]))
                 args = [self.box(self.ev(a, st, fr)) for a in node.args]
                 return SV(f(*args), "bool")
@@ -503,7 +504,7 @@ class BuiltinMixin:
     # ------------------------------------------------------------------ spec-only functions (contract language)
     SPEC_ONLY = {"card", "implies", "iff", "forall", "exists", "subset", "set_eq", "old", "is_class", "keys_of",
                  "ty_is", "same_class", "unchanged", "fresh_obj", "no_effects", "effects", "attr", "sel", "tuple2", "sval", "ival",
-                 "local", "sub_accepts", "attr_set", "accepts", "matches", "is_json", "as_set_of", "distinct", "cls_name", "clsattr", "written_text", "opened_path", "ext", "box_bool", "tl_get", "raw_tq_ok", "is_blank", "attr_of", "eq_str", "mro_of", "as_dict", "as_list", "as_set", "seq_len", "dict_len", "truthy", "dict_get", "pyeval_str", "at", "is_none"}
+                 "local", "tail", "type_arg", "type_args", "sub_accepts", "attr_set", "accepts", "matches", "is_json", "as_set_of", "distinct", "cls_name", "clsattr", "written_text", "opened_path", "ext", "box_bool", "tl_get", "raw_tq_ok", "is_blank", "attr_of", "eq_str", "mro_of", "as_dict", "as_list", "as_set", "seq_len", "dict_len", "truthy", "dict_get", "pyeval_str", "at", "is_none"}
     SPEC_CONSTS = {}
 
     def bi_card(self, node, st, fr):
@@ -875,3 +876,23 @@ class BuiltinMixin:
         obj = self.ev(node.args[0], st, fr)
         r = self.read_attr(obj, ast.literal_eval(node.args[1]), st, fr)
         return SV(self.box(r), "set")
+
+    def bi_tail(self, node, st, fr):
+        """tail(xs) == xs[1:]"""
+        xs = self.ev(node.args[0], st, fr)
+        return self.slice_(SV(self.box(xs), "list"), ast.Slice(lower=ast.Constant(1), upper=None, step=None), st, fr, node)
+
+    def bi_type_arg(self, node, st, fr):
+        """type_arg(t, i) == t.__args__[i] of a typing object (opaque)"""
+        t = self.ev(node.args[0], st, fr)
+        args = self.class_attr(SV(self.box(t), "class"), "__args__", st, fr, node)
+        i = self.unbox(self.ev(node.args[1], st, fr), "int").t
+        v = self.voc
+        ab = self.box(args)
+        f = v.fn("getitem", v.Val, v.Val, v.Val)
+        is_seq = z3.Or(v.isinstance_(ab, "list"), v.isinstance_(ab, "tuple"))
+        return SV(z3.If(is_seq, v.sat(ab, i), z3.If(v.isinstance_(ab, "dict"), v.dget(ab, v.I2V(i)), f(ab, v.I2V(i)))), "any")
+
+    def bi_type_args(self, node, st, fr):
+        t = self.ev(node.args[0], st, fr)
+        return SV(self.box(self.class_attr(SV(self.box(t), "class"), "__args__", st, fr, node)), "any")
